@@ -111,6 +111,17 @@ PROPS = {
         assumptions=["D2 Read::read_exact either fills the buffer consuming exactly its length or fails; Vec::append; vec![0; n]", A['TOOLS'],
                      "rewrites R5v (alloc::vec::from_elem -> contracted stub), R5c (as_mut().copy_from_slice -> verified helper copy_into)"],
     ),
+    'C18': dict(
+        units_quick=['order', 'recover'], units_thorough=['order', 'recover', 'tower'], timeout=600,
+        claim="PARTIAL: Fq::sgn0 = parity of the canonical integer (limb-0 bit, proved with the limb-value lemma); Fq2::sgn0 = sgn0 of the first non-zero "
+              "coefficient, real part first; Sgn0Result xor and negate_if exact; Ord / PartialOrd for Fq2 = lexicographic order with the u-coefficient most "
+              "significant; Fq2::legendre = Legendre symbol of the norm; the two exponent literals of Fq2::sqrt equal (q-3)/4 and (q-1)/2 and sqrt(0) = 0; "
+              "negation flips parity and order of every non-zero y (proved from q odd); get_point_from_x returns a point on the curve with the given x "
+              "whose y is the larger root iff the flag is set, or None when x^3+b has no root.",
+        not_covered=["Fq / Fr sqrt, legendre and Ord are derive-generated (ff_derive): their contracts are assumed here (A8, C08)",
+                     "that Fq2::sqrt (Algorithm 9) returns a root exactly when one exists (A8'): only its constants and the zero case are proved"],
+        assumptions=[A['A8'], "A8' correctness of Adj/Rodriguez-Henriquez Algorithm 9", A['D_FQ'], "(-y)^2 = y^2 in Fq2 stated as a ring fact (lemma_neg_sq2)", A['TOOLS']],
+    ),
 }
 
 HOOK_COMMITS = []
